@@ -651,14 +651,21 @@ func runC02(c *Ctx) {
 			if k, isC := ConstInt(v); isC && k == 0 {
 				for _, f := range CmpFactsAt(r) {
 					f = f.Canon()
-					if ky, isCy := ConstInt(f.Y); isCy && ky == 0 && f.Op == token.LSS && isDiff(f.X) {
+					// n-i < 0, or n-i <= 0 (returning 0 for a difference of 0 is the same thing)
+					if ky, isCy := ConstInt(f.Y); isCy && ky == 0 && (f.Op == token.LSS || f.Op == token.LEQ) && isDiff(f.X) {
 						okZero = true
 					}
 				}
 				continue
 			}
 			if isDiff(v) {
-				okVal = true
+				// ... and the difference itself only where it is known not to be negative
+				for _, f := range CmpFactsAt(r) {
+					f = f.Canon()
+					if kx, isCx := ConstInt(f.X); isCx && kx == 0 && (f.Op == token.LSS || f.Op == token.LEQ) && isDiff(f.Y) {
+						okVal = true
+					}
+				}
 			}
 		}
 		c.Check(okZero && okVal, "O2.8", fk(daLeft)+":clamped-at-zero", daLeft.Pos(), fmt.Sprintf("returns 0 on the (n - i) < 0 edge: %v; returns n - i otherwise: %v", okZero, okVal))
